@@ -28,7 +28,7 @@ m = {
     "version": 1,
     "setup_cmd": "python3 bin/check setup",
     "hooks": c["hooks"],
-    "engines": [{"name": n, "path": "harness/" + (s.get("harness") or [n])[-1], "serves_properties": [p for p in props if p in c["checks"] and c["checks"][p]["sim"] == n], "kind_free_text": s.get("about", "")} for n, s in c["sims"].items()],
+    "engines": [{"name": n, "path": "harness/" + (s.get("harness") or [n])[-1], "serves_properties": [p for p in props if p in c["checks"] and (c["checks"][p]["sim"] == n or any(str(cfg[0]).endswith("@" + n) for cfg in c["checks"][p].get("configs", [])))], "kind_free_text": s.get("about", "")} for n, s in c["sims"].items()],
     "checks": checks,
     "not_applicable": na,
     "notes": c.get("notes", ""),
